@@ -1,3 +1,4 @@
+import HttpcoreModel.Generated
 import HttpcoreModel.Establish
 /-!
 # C11 — Proxy hops see exactly what is meant for them
@@ -93,5 +94,10 @@ example : mergeHeaders [(ascii "Proxy-Authorization", ascii "Basic x"), (ascii "
     [(ascii "proxy-authorization", ascii "mine")] = [(ascii "X-P", ascii "1"), (ascii "proxy-authorization", ascii "mine")] := by
   decide
 example : socksConnect (ascii "10.0.0.1") 443 = some [5, 1, 0, 1, 10, 0, 0, 1, 1, 187] := by decide
+
+/-- **C11.merge_is_the_modelled_function** - Tie A (regenerated): `merge_headers` in the source is statement for statement the function
+`Establish.mergeHeaders` models - in particular it works on copies, so merging a request's headers never changes the proxy
+configuration that later requests are merged with - and its two call sites merge what the model says they merge. -/
+theorem merge_is_the_modelled_function : Gen.mergeHeadersAsModelled = true := by decide
 
 end Httpcore.C11
